@@ -4,6 +4,7 @@
 
 #include "aln_param.h"
 #include "aln_struct.h"
+#include "kalign_verif.h"
 #define ALN_SEQPROFILE_IMPORT
 #include "aln_seqprofile.h"
 #define MAX(a, b) (a > b ? a : b)
@@ -11,6 +12,7 @@
 
 int aln_seqprofile_foward(struct aln_mem* m)
 {
+        KV_EVENT(KV_FWD_BEGIN, m, NULL, 0, 0, 0);
         struct states* s = m->f;
         const float* prof1 = m->prof1;
         const uint8_t* seq2 = m->seq2;
@@ -112,11 +114,13 @@ int aln_seqprofile_foward(struct aln_mem* m)
                 }
         }
         //prof1 -= m->enda << 6;
+        KV_EVENT(KV_FWD_END, m, NULL, 0, 0, 0);
         return OK;
 }
 
 int aln_seqprofile_backward(struct aln_mem* m)
 {
+        KV_EVENT(KV_BWD_BEGIN, m, NULL, 0, 0, 0);
         struct states* s = m->b;
         const float* prof1 = m->prof1;
         const uint8_t* seq2 = m->seq2;
@@ -213,11 +217,13 @@ int aln_seqprofile_backward(struct aln_mem* m)
                         s[j].gb = MAX(s[j].gb,ca)+prof1[29];
                 }
         }
+        KV_EVENT(KV_BWD_END, m, NULL, 0, 0, 0);
         return OK;
 }
 
 int aln_seqprofile_meetup(struct aln_mem* m,int old_cor[],int* meet,int* t,float* score)
 {
+        KV_EVENT(KV_MEETUP_BEGIN, m, NULL, 0, 0, 0);
         struct states* f = m->f;
         struct states* b = m->b;
         const float* prof1 = m->prof1;
@@ -335,5 +341,6 @@ int aln_seqprofile_meetup(struct aln_mem* m,int old_cor[],int* meet,int* t,float
         *meet = c;
         *t = transition;
         *score = max;
+        KV_EVENT(KV_MEETUP_END, m, NULL, 0, 0, 0);
         return OK;
 }
